@@ -91,16 +91,17 @@ type w8Disk struct {
 
 	// history of the file
 	expected   []w8Chunk // chunk layout a reload must show if certain
-	certain    bool      // the file holds exactly `expected` (then a reload must be exact)
+	certain    bool      // a reload shows exactly `expected` (then a reload must be exact)
+	clean      bool      // and the file holds no other bytes (no stale tail a torn write could revive)
 	expectErr  bool      // a reload of a certain file ends with an error (garbage after the chunks)
 	prev       []w8Chunk // layout before the last session
-	prevStrict bool      // `prev` was certain when the last session began and no damage since
+	prevStrict bool      // the file was `clean` with layout `prev` when the last session began
 	legit      map[int64]map[uint64]int
 	sessions   int
 }
 
 func newW8Disk(r *verifsim.Run) *w8Disk {
-	return &w8Disk{r: r, certain: true, legit: map[int64]map[uint64]int{}}
+	return &w8Disk{r: r, certain: true, clean: true, legit: map[int64]map[uint64]int{}}
 }
 
 func (d *w8Disk) addLegit(off int64, data []byte) {
@@ -261,14 +262,17 @@ func (d *w8Disk) endSession(ok bool) (touched bool) {
 			base = append(base, c)
 		}
 	}
-	d.prev, d.prevStrict = d.expected, d.certain
+	wasCertain := d.certain
+	d.prev, d.prevStrict = d.expected, d.clean
 	d.expected = append(base, s.chunks...)
-	d.certain = ok && (len(base) == 0 || d.prevStrict)
+	// a save that reported success ends with a Truncate right behind its last chunk
+	d.certain = ok && (len(base) == 0 || wasCertain)
+	d.clean = d.certain
 	d.expectErr = false
 	return true
 }
 
-func (d *w8Disk) damaged() { d.certain = false }
+func (d *w8Disk) damaged() { d.certain, d.clean = false, false }
 
 // adopt: a reload happened; whatever it (legitimately) showed is what the unchanged file shows.
 func (d *w8Disk) adopt(R []w8Read, err error) {
@@ -279,7 +283,9 @@ func (d *w8Disk) adopt(R []w8Read, err error) {
 	for _, rc := range R {
 		d.expected = append(d.expected, w8Chunk{rc.off, append([]byte(nil), d.file[rc.off:rc.off+int64(rc.total)]...)})
 	}
-	d.certain, d.expectErr = true, err != nil
+	// the reader ended without an error only if the chunks reach the end of the file exactly;
+	// otherwise stale bytes follow them
+	d.certain, d.clean, d.expectErr = true, err == nil, err != nil
 	d.prev, d.prevStrict = nil, false
 }
 
@@ -929,7 +935,9 @@ func w8Cache(r *verifsim.Run) {
 	} else {
 		n = 3 + c.Intn(38, "nstr")
 	}
-	dups := c.Intn(6, "dups_in_batch") == 1
+	// the same string twice in one batch: only where the outcome does not depend on which entries
+	// an earlier eviction happened to pick (regime 0), so that a failure replays
+	dups := c.Intn(6, "dups_in_batch") == 1 && regime == 0
 	ttl := []int{0, 10, 100}[c.Intn(3, "ttl")]
 	w.lag[1] = []uint32{0, 1, 5, 50}[c.Intn(4, "lag")]
 	w.now = 1_000_000 + uint32(c.Intn(1000, "t0"))
@@ -1052,17 +1060,27 @@ type w8Raw struct {
 	made        map[int]int // id -> length of every item ever created
 }
 
-// item: [n][id][n pattern bytes]
-func w8Item(id, n int) []byte {
-	b := make([]byte, 8+n)
-	b[0], b[1], b[2], b[3] = byte(n), byte(n>>8), byte(n>>16), byte(n>>24)
-	b[4], b[5], b[6], b[7] = byte(id), byte(id>>8), byte(id>>16), byte(id>>24)
-	x := uint32(id)*2654435761 + 977
-	for i := 0; i < n; i++ {
+// w8Pattern is a fixed pseudo-random byte field (immutable after init); an item's payload is a
+// window of it chosen by the item id, so items differ and any damaged byte shows.
+var w8Pattern = func() []byte {
+	b := make([]byte, 1<<20)
+	x := uint32(977)
+	for i := range b {
 		x = x*1664525 + 1013904223
-		b[8+i] = byte(x >> 24)
+		b[i] = byte(x >> 24)
 	}
 	return b
+}()
+
+func w8Payload(id, n int) []byte {
+	start := id * 104729 % (len(w8Pattern) - n)
+	return w8Pattern[start : start+n]
+}
+
+// item: [n][id][n pattern bytes]
+func w8Item(dst []byte, id, n int) []byte {
+	dst = append(dst, byte(n), byte(n>>8), byte(n>>16), byte(n>>24), byte(id), byte(id>>8), byte(id>>16), byte(id>>24))
+	return append(dst, w8Payload(id, n)...)
 }
 
 func (w *w8Raw) call(where string, f func()) {
@@ -1081,7 +1099,7 @@ func (w *w8Raw) parse(R []w8Read, what string) (items []w8RawItem, ok bool) {
 			}
 			n := int(b[0]) | int(b[1])<<8 | int(b[2])<<16 | int(b[3])<<24
 			id := int(b[4]) | int(b[5])<<8 | int(b[6])<<16 | int(b[7])<<24
-			if mn, made := w.made[id]; !made || mn != n || len(b) < 8+n || !bytes.Equal(b[:8+n], w8Item(id, n)) {
+			if mn, made := w.made[id]; !made || mn != n || len(b) < 8+n || !bytes.Equal(b[8:8+n], w8Payload(id, n)) {
 				w.r.Fail(w8Prop, "damaged_item", what, "%s: chunk #%d holds an item (id=%d len=%d) that was never saved in this form", what, ci, id, n)
 				return nil, false
 			}
@@ -1149,7 +1167,7 @@ func (w *w8Raw) save(actor string, faulty bool) {
 		}
 		chunk := w.st.StartWriteChunk(w8RawMagic, 0)
 		for _, it := range w.items[from:] {
-			chunk = append(chunk, w8Item(it.id, it.n)...)
+			chunk = w8Item(chunk, it.id, it.n)
 			if chunk, err = w.st.FinishItem(chunk); err != nil {
 				return
 			}
@@ -1201,6 +1219,13 @@ func w8RawRun(r *verifsim.Run) {
 		switch k := c.Intn(10, "op"); {
 		case k <= 4: // new journal entries
 			cnt := 1 + c.Intn(3, "items")
+			total := 0
+			for _, it := range w.items {
+				total += it.n
+			}
+			if total > 2<<20 {
+				cnt = 0 // the journal is full (keeps a run cheap); compaction makes room
+			}
 			for j := 0; j < cnt; j++ {
 				var n int
 				switch big {
